@@ -108,3 +108,47 @@ PLANS['C15'] = dict(
          'different descriptions by >= 2 interfaces of one __iro__; distinct = distinct (bases, names, tags) worlds.',
     assumptions=['__iro__ itself is decided by C02/C03'],
 )
+
+
+_REG_ASSUME = ['required and provided interfaces come from disjoint DAG families; interfaces have process-unique (name, module)',
+               '__sro__ of looked-up specifications is decided by C02/C03 and read by the model']
+PLANS['C04'] = dict(
+    engine='registry', level='exploration', jobs=lambda tier: both(tier, (4, 150), (8, 2000)),
+    minimums=lambda t: {'lookups': 10000, 'hits': 2000, 'lookups_2plus_candidates': 800,
+                        'lookups_candidates_differing_after_first_position': 100},
+    rule='Random registry chains (both flavours) populated with registrations of arity 0-3, names, None/interface/'
+         'class-declaration keys, biased to ties; random lookups (interface, class and instance specifications) compared '
+         'with the lexicographic-position reference model; evaluations = oracle comparisons.  Non-trivial: a lookup with '
+         '>= 2 applicable candidates; distinct = distinct (arity, candidate count, winning registry depth).',
+    assumptions=_REG_ASSUME + ['among tied candidates with unrelated provided interfaces any minimal one is accepted'],
+)
+PLANS['C07'] = dict(
+    engine='registry', level='exploration', jobs=lambda tier: both(tier, (4, 150), (8, 2000)),
+    minimums=lambda t: {'subscription_queries': 8000, 'order_pairs': 3000, 'results_from_2plus_registries': 100,
+                        'results_with_2plus_keys_in_one_registry': 200, 'unsubscribe_value': 100, 'unsubscribe_all': 100},
+    rule='Random subscribe/unsubscribe histories (duplicates, equal-but-distinct values, handlers, arity 0-3, chains) and '
+         'subscriptions() queries compared with a ledger: multiset equality by identity plus pairwise order rules '
+         '(base registry first, less specific key first, FIFO for identical keys).  Non-trivial: result with entries from '
+         '>= 2 different keys or registries; distinct = distinct (arity, size, registries, keys) result shapes.',
+    assumptions=_REG_ASSUME + ['order is only constrained between comparable keys'],
+)
+PLANS['C08'] = dict(
+    engine='registry', level='exploration', jobs=lambda tier: both(tier, (4, 100), (8, 1200)),
+    minimums=lambda t: {'evaluations': 20000, 'valueerror_probes': 3000, 'keys_with_2plus_names': 50,
+                        'subscriber_calls_checked': 200, 'super_proxy_keys': 20},
+    rule='For a registry state and key, all nine entry points are called in a seeded order (each observed cold, '
+         'warm-by-itself, warm-by-another) and compared with lookup()/subscriptions() of the same registry; recording '
+         'factories check arguments (super proxies unwrapped) and None results; non-string names must raise ValueError.  '
+         'Non-trivial: key with >= 1 registered name; distinct = distinct (arity, names, entry-point order prefix).',
+    assumptions=_REG_ASSUME,
+)
+PLANS['C09'] = dict(
+    engine='registry', level='exploration', jobs=lambda tier: both(tier, (4, 100), (8, 1200)),
+    minimums=lambda t: {'evaluations': 20000, 'rebuilds': 50, 'replay_probes': 200, 'removals_with_sibling_left': 100},
+    rule='Random register/unregister/subscribe/unsubscribe/rebuild histories (overwrites, identical re-registration, '
+         'register(None), unregister with identical/equal/other value, shared key prefixes) compared after every step '
+         'with a ledger through registered/allRegistrations/allSubscriptions/subscribed; periodically a replayed twin and '
+         'rebuild() must answer unambiguous probes identically.  Non-trivial: history overwrites an entry or removes one '
+         'while a sibling under the same required prefix stays; distinct = distinct op-kind sequences.',
+    assumptions=_REG_ASSUME,
+)
